@@ -638,16 +638,29 @@ class SymMixin:
                     return elems[k]
                 et = o.info.get("elem")
                 run.emit("may-raise", "IndexError", self.site(node), "index into a tuple of unknown length")
-                return self.sym_of_type(("item", o.term, kterm(k)), et) if et is not None else Sym(("item", o.term, kterm(k)))
+                idx = k if isinstance(k, int) and not isinstance(k, bool) else kterm(k)
+                return self.sym_of_type(("item", o.term, idx), et) if et is not None else Sym(("item", o.term, idx))
             if kind == "bytes":
                 if isinstance(k, tuple) and k and k[0] == "slice":
                     return Sym(("slice", o.term, kterm(k[1]), kterm(k[2])), "bytes")
                 return Sym(("byteat", o.term, kterm(k)), "int", lo=0, hi=255)
             if kind == "any" and o.term[0] in ("maybe",):
                 self.limit("subscript of a maybe-value", node)
+        seqs = None
         if isinstance(o, (tuple, ListV)) and isinstance(k, Sym):
-            run.emit("may-raise", "IndexError", self.site(node), "sequence indexed by a run-time value")
-            return Sym(("item", kterm(o), k.term))
+            seqs = [o]
+        elif isinstance(o, Sym) and o.info.get("one_of") and all(isinstance(x, (tuple, ListV)) for x in o.info["one_of"]) and self.kind_of(k, run) == "int" if isinstance(k, Sym) else False:
+            seqs = o.info["one_of"]
+        if seqs is not None:
+            _, lo, _hi = self.int_parts(k, run)
+            if lo is None or lo < 0:
+                run.emit("note", "negative-index", self.site(node),
+                         "a sequence is indexed by a run-time integer that may be negative: negative indices wrap around instead of failing")
+            items = [x for s_ in seqs for x in (s_.items if isinstance(s_, ListV) else s_)]
+            if items and run.decide(("in-range", kterm(o), k.term), self.site(node)):
+                return self.one_of_sym(("item", kterm(o), k.term), items)
+            run.emit("raise-site", "IndexError", self.site(node), "sequence index out of range")
+            self.throw("IndexError", "index out of range", node)
         self.limit(f"symbolic subscript {o!r}[{k!r}]", node)
 
     def sym_match_sequence(self, pat, v: Sym, env, run):
